@@ -183,3 +183,43 @@ theorem mem_allSources {y : Nat} {bs : List Blk} : y ∈ allSources bs ↔ ∃ b
   simp [allSources, mem_foldl_union]
 
 end Thanos.CompactProto
+
+namespace Thanos.CompactProto
+
+/-! ### equal-size containment, totality of the duplicate filter's order -/
+
+theorem subset_of_nodup_length_le {l₁ l₂ : List Nat} (h1 : l₁.Nodup) (hsub : l₁ ⊆ l₂) (hlen : l₂.length ≤ l₁.length) :
+    l₂ ⊆ l₁ := by
+  intro z hz
+  by_cases hz1 : z ∈ l₁
+  · exact hz1
+  · exfalso
+    have hnd : (z :: l₁).Nodup := List.nodup_cons.mpr ⟨hz1, h1⟩
+    have hs : (z :: l₁) ⊆ l₂ := by
+      intro y hy
+      rcases List.mem_cons.mp hy with rfl | hy
+      · exact hz
+      · exact hsub hy
+    have := length_le_of_nodup_subset hnd hs
+    simp only [List.length_cons] at this
+    omega
+
+theorem beats_length_le {lt : Bool} {u m : Blk} (h : beats lt u m = false) : u.sources.length ≤ m.sources.length := by
+  cases lt <;>
+    simp only [beats, Bool.or_eq_false_iff, Bool.and_eq_false_iff, decide_eq_false_iff_not, beq_eq_false_iff_ne,
+      if_true, Bool.false_eq_true, if_false] at h <;> omega
+
+theorem beats_total {a b : Blk} (hid : a.id ≠ b.id) (hlen : a.sources.length = b.sources.length) :
+    beats true a b = true ∨ beats true b a = true := by
+  simp only [beats, Bool.or_eq_true, Bool.and_eq_true, decide_eq_true_eq, beq_iff_eq, if_true]
+  omega
+
+/-- a block that covers an unhidden block of a view, without being beaten … has exactly its sources -/
+theorem covers_back_of_unbeaten {lt : Bool} {u m : Blk} (hu : u.sources.Nodup) (hm : m.sources.Nodup)
+    (hc : covers u m = true) (hb : beats lt u m = false) : covers m u = true := by
+  have hsub : m.sources ⊆ u.sources := fun x hx => (covers_iff u m).mp hc x hx
+  have hlen := beats_length_le hb
+  have := subset_of_nodup_length_le hm hsub hlen
+  exact (covers_iff m u).mpr (fun x hx => this hx)
+
+end Thanos.CompactProto
